@@ -308,26 +308,26 @@ def select_plans(labels, tier, r, task=None):
     if tier == "thorough":
         ks = list(range(n))
         exhaustive = True
-        if n * len(KINDS) > 2400:
+        if n * len(KINDS) > 1400:
             # very long tasks (ragged contour data): all crucial points, the tail and an even subsample
             keep = set(k for k, lab in enumerate(labels) if lab.startswith(CRUCIAL))
             keep.update(range(max(0, n - 40), n))
             rest = [k for k in ks if k not in keep]
-            step = -(-len(rest) // max(1, 600 - len(keep)))
+            step = -(-len(rest) // max(1, 350 - len(keep)))
             keep.update(rest[r.randrange(step)::step])
             ks = sorted(keep)
             exhaustive = False
         for k in ks:
             for kind in KINDS:
                 plans.append([{"at": k, "kind": kind}])
-        for k in ks[::max(1, len(ks) // 120)]:
+        for k in ks[::max(1, len(ks) // 50)]:
             plans.append([{"at": k, "kind": "err_persist"}])
             plans.append([{"at": k, "kind": "err_persist_w"}])
             plans.append([{"at": k, "kind": r.choice(["err_burst2", "err_burst3", "err_burst5"])}])
         for k, lab in enumerate(labels):
             if lab.startswith("file.close") and lab.endswith("~"):
                 plans.append([{"at": k, "kind": "torn_close"}])
-        for k in ks[::max(1, len(ks) // 80)]:
+        for k in ks[::max(1, len(ks) // 40)]:
             plans.append([{"at": k, "kind": "intr_before"}])
             plans.append([{"at": k, "kind": "intr_before"}, {"at": -1, "kind": "none"}])
         # crash -> restart -> crash sequences
